@@ -803,13 +803,44 @@ def build_cases(tier="quick"):
 
     ref += [Case(f"{PROP}/sevm.SEVM.run_message#own-block", c.case, c.harness, replay=c.replay, sources=c.sources) for c in c20.fork_cases() if c.unit.endswith("sevm.SEVM.run_message")]
     ref += [Case(f"{PROP}/sevm.Path.extend_path#successor-owns-its-conditions", c.case, c.harness, replay=c.replay, sources=c.sources) for c in c11.path_growth_cases() if "extend_path" in c.unit]
+    from contracts import c12
+    from contracts.common import rewrap
+
+    # `with arbitrary arguments`: a dynamic array argument of a target call has a free element per index below its largest length candidate (C12's unit)
+    ref += rewrap(PROP, c12.encode_cases(), "arbitrary-arguments", lambda c: "sizes=" in c.case)
     return var_set_cases() + probe_outcome_cases() + path_slice_cases() + sender_cases() + frontier_cases() + digest_cases() + slice_cases() + target_call_path_cases() + ref
+
+
+def ground_build_out_lookup():
+    """run_target_contract takes the ABI and selectors of a target from BuildOut().get_by_name(name, filename): it must be THAT file's contract,
+    also for the second contract of the same name and whatever was looked up before (every order of lookups over two files x two names)"""
+    import itertools
+
+    from halmos.mapper import BuildOut
+
+    jA, jB, jC = {"tag": "A.sol:Vault"}, {"tag": "B.sol:Vault"}, {"tag": "A.sol:Other"}
+    bom = {"A.sol": {"Vault": (jA, "contract", None), "Other": (jC, "contract", None)}, "B.sol": {"Vault": (jB, "contract", None)}}
+    want = {("Vault", "A.sol"): jA, ("Vault", "B.sol"): jB, ("Other", "A.sol"): jC, ("Other", None): jC}
+    bo = BuildOut()
+    saved = bo._build_out_map
+    bad, n = [], 0
+    try:
+        for order in itertools.permutations(list(want)):
+            bo.set_build_out({k: dict(v) for k, v in bom.items()})  # (a new map object: caches start empty)
+            for name, fn in list(order) + list(order):
+                n += 1
+                got = bo.get_by_name(name, fn)
+                if got is not want[(name, fn)] and len(bad) < 3:
+                    bad.append(([f"{a}@{b}" for a, b in order], f"{name}@{fn}", got.get("tag")))
+    finally:
+        bo.set_build_out(saved) if saved is not None else None
+    return [(f"BuildOut.get_by_name(name, filename) returns that file's contract in every order of lookups ({n} lookups)", not bad, str(bad[:2])[:400])]
 
 
 def grounds():
     from contracts.common import ground_script
 
-    return [Ground(f"{PROP}/cheatcodes.snapshot_state#block", ground_script("block_values_in_state_id.py", "a handler bump(n){vm.roll(n)} and f(){require(block.number >= 2); flag = 1}, depth 2", "a post-state that differs from its pre-state only in a block value is a new state (it is not dropped as visited)"), sources=("halmos.cheatcodes:snapshot_state",)), Ground(f"{PROP}/__main__.resolve_target_contracts", ground_target_contracts, sources=("halmos.__main__:resolve_target_contracts",)), Ground(f"{PROP}/__main__.resolve_target_selectors", ground_target_selectors, sources=("halmos.__main__:resolve_target_selectors",)), Ground(f"{PROP}/__main__.abi_decode_FuzzSelector_array", ground_fuzz_selector_decoding, sources=("halmos.__main__:abi_decode_FuzzSelector_array",))]
+    return [Ground(f"{PROP}/mapper.BuildOut.get_by_name", ground_build_out_lookup, sources=("halmos.mapper:BuildOut.get_by_name",)), Ground(f"{PROP}/cheatcodes.snapshot_state#block", ground_script("block_values_in_state_id.py", "a handler bump(n){vm.roll(n)} and f(){require(block.number >= 2); flag = 1}, depth 2", "a post-state that differs from its pre-state only in a block value is a new state (it is not dropped as visited)"), sources=("halmos.cheatcodes:snapshot_state",)), Ground(f"{PROP}/__main__.resolve_target_contracts", ground_target_contracts, sources=("halmos.__main__:resolve_target_contracts",)), Ground(f"{PROP}/__main__.resolve_target_selectors", ground_target_selectors, sources=("halmos.__main__:resolve_target_selectors",)), Ground(f"{PROP}/__main__.abi_decode_FuzzSelector_array", ground_fuzz_selector_decoding, sources=("halmos.__main__:abi_decode_FuzzSelector_array",))]
 
 
 ASSUMPTIONS = [
